@@ -156,7 +156,25 @@ func checkC03(c *Ctx) {
 			})
 		}
 	}
-	c.R.Floor("C03-2", 6)
+	// ... and of every exported operation taking Point operands (receiver and arguments may alias in any pattern)
+	publicPatterns := map[string][][]int{
+		"Add":               {{0, 0, 1}, {0, 1, 0}, {0, 1, 1}, {0, 0, 0}},
+		"Subtract":          {{0, 0, 1}, {0, 1, 0}, {0, 1, 1}, {0, 0, 0}},
+		"Double":            {{0, 0}},
+		"Negate":            {{0, 0}},
+		"Set":               {{0, 0}},
+		"ConditionalNegate": {{0, 0, 1}},
+		"ConditionalSelect": {{0, 0, 1, 2}, {0, 1, 0, 2}, {0, 1, 1, 2}, {0, 0, 0, 2}},
+	}
+	for _, name := range SortedKeys(publicPatterns) {
+		for _, pat := range publicPatterns[name] {
+			checkAlias(c, prog, set, "C03-2", Method(ptT, name), pat, func(r *Run) []absint.Val {
+				cs := coordsOf(r, pl, 0)
+				return []absint.Val{cs[0], cs[1], cs[2], r.FieldOf(0, pl.valid)}
+			})
+		}
+	}
+	c.R.Floor("C03-2", 22)
 
 	// C03-3: public operations = the internal formula on the right operands, flag propagated
 	c03Public(c, prog, set, pl, results)
